@@ -1,7 +1,7 @@
 CHECKS = [
     entry("C12", "factory",
           technique="property-based testing (rapid): generated rules files loaded through the real config loader, histories of lazy sampler creation by several workers and real reloads; pairwise identity of the dynsampler instances behind every sampler vs an oracle built from full-definition equality",
-          quick=dict(checks=2000, budget_s=40),
+          quick=dict(checks=1500, budget_s=40),
           thorough=dict(checks=15000, shards=16, budget_s=400),
           level_text="Generated rules files x creation/reload histories; after every step every pair of live rate-tracking instances is compared with the oracle (same destination+position => shared by all workers; other destination or different definition => not shared), plus the unique_dynsampler_count gauge as a hook-free cross-check. Exploration: finds sharing/isolation errors for the definition pairs and histories the generator reaches; does not prove absence.",
           level_note="Instance identity is read through sample/verif_hooks_c12.go (build tag verif). Worker caches and the reload sequence are re-implemented in the harness from collect/collector_worker.go and collect.reloadConfigs and run sequentially; concurrent creation is left to C35."),
